@@ -83,7 +83,19 @@ pub fn run(a: &Args) {
         let code = c["status"].as_u64().unwrap() as u16;
         let state = state_av(c["state"].as_str().unwrap());
         let form = c["reasons"]["form"].as_str().unwrap();
-        let kws: Vec<String> = c["reasons"]["kws"].as_array().unwrap().iter().enumerate().map(|(i, x)| kw(x.as_str().unwrap(), rot + i * 3)).collect();
+        // every other case pairs the vocabularies as printers do: the unlisted keywords are the suffixed variants
+        // (-error / -warning / -report) of the very blocking keyword that appears in the same set
+        let paired = ci % 2 == 1;
+        let kws: Vec<String> = c["reasons"]["kws"].as_array().unwrap().iter().enumerate().map(|(i, x)| {
+            let class = x.as_str().unwrap();
+            if paired && class == "B" {
+                BLOCKING[rot % 10].to_string()
+            } else if paired && class != "H" && class != "N" {
+                format!("{}{}", BLOCKING[rot % 10], ["-error", "-warning", "-report"][i % 3])
+            } else {
+                kw(class, rot + i * 3)
+            }
+        }).collect();
         let reasons = match form {
             "absent" => None,
             "single" => Some(AV::Str("Keyword", kws[0].clone())),
